@@ -93,7 +93,15 @@ func rsyncMain(ctx context.Context, osenv *rsyncos.Env, opts *rsyncopts.Options,
 		// source is local
 		// other = src
 		paths = sources
-		roDirs = sources
+		for _, source := range sources {
+			if strings.HasSuffix(source, "/") {
+				roDirs = append(roDirs, source)
+			} else {
+				// The sender lists dir/name (no trailing slash) as name,
+				// relative to dir, so it needs to open dir.
+				roDirs = append(roDirs, filepath.Dir(source))
+			}
+		}
 		if opts.LocalServer() {
 			// source and dest are both local
 			rwDirs = []string{dest}
